@@ -1,21 +1,32 @@
 ---------------------------- MODULE RunGridTrace ----------------------------
-(* Trace validation for RunGrid: every event recorded from the real run() (hook in wannierberri/run_grid.py,
-   projected by harness/rungrid_world.py) must be explained by the RunGrid action of the same name, and the state
-   projected from the implementation must equal the state the specification computes.  Batch mode: the file named
-   by the environment variable TRACE_FILE holds {"traces": [[event, ...], ...]}; the verdict for trace number tid is
-   the line <<"ACCEPT", tid>>; mismatching fields are printed as <<"MISMATCH", tid, position, field>> when the
-   constant Diagnose is TRUE (then matching is not enforced and the walk continues on the specification's state).
-   All RunGrid invariants are evaluated in every state of every trace. *)
+(* Trace validation for RunGrid: the events recorded from the real run() (hook in wannierberri/run_grid.py, projected
+   by harness/rungrid_world.py) are walked through the specification.  Batch mode: the file named by the environment
+   variable TRACE_FILE holds {"traces": [[event, ...], ...]}; the verdict for trace number tid is the line
+   <<"ACCEPT", tid>>; <<"AT", tid, l>> is printed for every position reached; mismatching fields are printed as
+   <<"MISMATCH", tid, position, field>> when the constant Diagnose is TRUE (then matching is not enforced and the walk
+   continues on the specification's state).  All RunGrid invariants are evaluated in every state of every trace.
+
+   Two levels (constant Strict):
+   Strict = TRUE  - every event must be explained by the RunGrid action of the same name and the projected state of the
+                    implementation must EQUAL the state the specification computes (K list as a sequence with its
+                    representatives, storage flags, storage paths, order of evaluation and collection, masks of the
+                    collection loop, factor files, pickle).  This is the model of the code as it is; a rejection at
+                    this level alone is NOT a violation of C10/C11/C12 (it is reported as information).
+   Strict = FALSE - what the properties need: the K list of the implementation is adopted at StartFresh / Refine after
+                    comparing it with the specification's list up to order and choice of orbit representatives
+                    (CanonBag), the evaluation/collection loop is free (any order, any chunking; Wait / EndCollect /
+                    Complete events are skipped), and only weights, the coefficients of the running integral, the saved
+                    and returned results, the start iteration of a restart and the invariants are enforced.
+   Everything accepted with Strict = TRUE is accepted with Strict = FALSE. *)
 EXTENDS RunGrid, Json, IOUtils, TLCExt
 
-CONSTANT Diagnose
+CONSTANTS Diagnose, Strict
 
-VARIABLES tid, l, ref, refRet, refSet
-tvars == <<tid, l, ref, refRet, refSet>>
+VARIABLES tid, l, tr, ref, refRet, refSet
+tvars == <<tid, l, tr, ref, refRet, refSet>>
 
 TraceLog == JsonDeserialize(IOEnv.TRACE_FILE).traces
-NT == Len(TraceLog)
-Ev == TraceLog[tid][l]
+Ev == tr[l]
 Has(f) == f \in DOMAIN Ev
 
 GInv1 == { <<1,0,0,1>>, <<-1,0,0,-1>> }
@@ -27,55 +38,142 @@ GH3   == { <<1,0,0,1>>, <<-1,-1,1,0>>, <<0,1,-1,-1>> }
 GH6   == GH3 \cup { <<-1,0,0,-1>>, <<0,-1,1,1>>, <<1,1,-1,0>> }
 GH3m  == GH3 \cup { <<-1,0,1,1>>, <<0,-1,-1,0>>, <<1,1,0,-1>> }
 
-Chk(name, cond) == cond \/ (Diagnose /\ PrintT(<<"MISMATCH", tid, l, name>>))
+Chk(name, cond)  == cond \/ (Diagnose /\ PrintT(<<"MISMATCH", tid, l, name>>))
+(* a structural precondition of what follows: reported like Chk, but the walk stops even when diagnosing *)
+Must(name, cond) == Chk(name, cond) /\ cond
 
 KLof(s) == [i \in 1..Len(s) |-> [c |-> <<s[i][1], s[i][2]>>, lev |-> s[i][3], fac |-> s[i][4], ev |-> s[i][5], st |-> s[i][6], sp |-> s[i][7]]]
 SetOf(s) == {s[i] : i \in 1..Len(s)}
 ModeOf(e) == [par |-> e.par, dump |-> e.dump, allow |-> e.allow, sym |-> e.sym, restart |-> e.restart]
 AsSeq(s) == [i \in 1..Len(s) |-> s[i]]
+AscSeq(S) == [m \in 1..Cardinality(S) |-> CHOOSE x \in S : Cardinality({y \in S : y < x}) = m - 1]
+Core(k) == [i \in 1..Len(k) |-> <<k[i].c, k[i].lev, k[i].fac, k[i].ev>>]
 
-IsEvent(n) == l <= Len(TraceLog[tid]) /\ Ev.e = n /\ l' = l + 1 /\ UNCHANGED <<tid, ref, refRet, refSet>>
+IsEvent(n) == l <= Len(tr) /\ Ev.e = n /\ l' = l + 1 /\ UNCHANGED <<tid, tr, ref, refRet, refSet>>
 
 DiskMatchP(d) == /\ Chk("disk.ffiles", {<<p[1], AsSeq(p[2])>> : p \in SetOf(d.ffiles)} = {<<i, ffiles'[i]>> : i \in DOMAIN ffiles'})
                  /\ Chk("disk.pick", KLof(d.pick) = pick')
 CoefMatch(c, mine, name) == Chk(name, AsSeq(c.coef) = mine) /\ Chk(name \o ".stray", c.stray = 0)
 
-TStartFresh == /\ IsEvent("StartFresh") /\ StartFresh(ModeOf(Ev), Ev.nit)
+-----------------------------------------------------------------------------
+(* Strict level: the code as it is *)
+TStartFresh == /\ Strict /\ IsEvent("StartFresh") /\ StartFresh(ModeOf(Ev), Ev.nit)
                /\ Chk("kl", kl' = KLof(Ev.kl)) /\ Chk("facs", facs' = AsSeq(Ev.facs)) /\ Chk("start", Ev.start = 0)
                /\ (Has("disk") => DiskMatchP(Ev.disk))
-TStartRestart == /\ IsEvent("StartRestart") /\ StartRestart(ModeOf(Ev), Ev.nit, AsSeq(Ev.listing), Ev.ri)
+TStartRestart == /\ Strict /\ IsEvent("StartRestart") /\ StartRestart(ModeOf(Ev), Ev.nit, AsSeq(Ev.listing), Ev.ri)
                  /\ Chk("kl", kl' = KLof(Ev.kl)) /\ Chk("facs", facs' = AsSeq(Ev.facs)) /\ Chk("start", start' = Ev.start)
                  /\ CoefMatch(Ev.coef, coef', "coef")
                  /\ (Has("disk") => DiskMatchP(Ev.disk))
-TBeginProcess == /\ IsEvent("BeginProcess") /\ BeginProcess /\ Chk("sel", sel' = AsSeq(Ev.sel)) /\ Chk("kl", kl' = KLof(Ev.kl)) /\ Chk("par", Ev.par = mode.par)
-TEval == /\ IsEvent("Eval") /\ EvalSerial /\ Chk("k", act'.k = Ev.k) /\ Chk("kl", kl' = KLof(Ev.kl))
+TBeginProcess == /\ Strict /\ IsEvent("BeginProcess") /\ BeginProcess /\ Chk("sel", sel' = AsSeq(Ev.sel)) /\ Chk("kl", kl' = KLof(Ev.kl)) /\ Chk("par", Ev.par = mode.par)
+TEval == /\ Strict /\ IsEvent("Eval") /\ EvalSerial /\ Chk("k", act'.k = Ev.k) /\ Chk("kl", kl' = KLof(Ev.kl))
          /\ CoefMatch(Ev.rsum, rsum', "rsum")
-TEndProcess == /\ IsEvent("EndProcess") /\ (EndSerial \/ (EndCollect /\ pc' = "pickle"))
+TEndProcess == /\ Strict /\ IsEvent("EndProcess") /\ (EndSerial \/ (EndCollect /\ pc' = "pickle"))
                /\ Chk("kl", kl' = KLof(Ev.kl)) /\ CoefMatch(Ev.rsum, rsum', "rsum")
-TComplete == IsEvent("Complete") /\ Complete(Ev.t)
-TWait == /\ IsEvent("Wait") /\ WaitReturn(SetOf(Ev.ready)) /\ Chk("old", old = SetOf(Ev.old))
-TCollect == /\ IsEvent("Collect") /\ Collect /\ Chk("k", act'.k = Ev.k) /\ Chk("kl", kl' = KLof(Ev.kl))
+TComplete == Strict /\ IsEvent("Complete") /\ Complete(Ev.t)
+TWait == /\ Strict /\ IsEvent("Wait") /\ WaitReturn(SetOf(Ev.ready)) /\ Chk("old", old = SetOf(Ev.old))
+TCollect == /\ Strict /\ IsEvent("Collect") /\ Collect /\ Chk("k", act'.k = Ev.k) /\ Chk("kl", kl' = KLof(Ev.kl))
             /\ CoefMatch(Ev.rsum, rsum', "rsum")
-TEndCollect == /\ IsEvent("EndCollect") /\ EndCollect /\ pc' = "wait" /\ Chk("old", old' = SetOf(Ev.old))
-TAppendPickle == /\ IsEvent("AppendPickle") /\ AppendPickle /\ (Has("disk") => DiskMatchP(Ev.disk))
-TUpdateIntegral == /\ IsEvent("UpdateIntegral") /\ UpdateIntegral /\ pc' # "error"
+TEndCollect == /\ Strict /\ IsEvent("EndCollect") /\ EndCollect /\ pc' = "wait" /\ Chk("old", old' = SetOf(Ev.old))
+TAppendPickle == /\ Strict /\ IsEvent("AppendPickle") /\ AppendPickle /\ (Has("disk") => DiskMatchP(Ev.disk))
+TUpdateIntegral == /\ Strict /\ IsEvent("UpdateIntegral") /\ UpdateIntegral /\ pc' # "error"
                    /\ Chk("kl", kl = KLof(Ev.kl)) /\ CoefMatch(Ev.coef, coef', "coef")
                    /\ Chk("facs", facs' = AsSeq(Ev.facs)) /\ (Has("disk") => DiskMatchP(Ev.disk))
-TSaveData == /\ IsEvent("SaveData") /\ SaveData
+TSaveData == /\ Strict /\ IsEvent("SaveData") /\ SaveData
              /\ Chk("iter", Ev.iter = it + start) /\ Chk("saved", Ev.saved = ~(mode.restart /\ it = 0))
-             /\ (Ev.saved => (Has("file") /\ CoefMatch(Ev.file, coef, "file")))
-TRefine == /\ IsEvent("Refine") /\ Refine(AsSeq(Ev.ord)) /\ Chk("kl", kl' = KLof(Ev.kl)) /\ Chk("nkprev", nkprev' = Ev.nkprev)
+             /\ (Ev.saved => (Chk("file", Has("file")) /\ (Has("file") => CoefMatch(Ev.file, coef, "file"))))
+TRefine == /\ Strict /\ IsEvent("Refine") /\ Refine(AsSeq(Ev.ord)) /\ Chk("kl", kl' = KLof(Ev.kl)) /\ Chk("nkprev", nkprev' = Ev.nkprev)
+
+-----------------------------------------------------------------------------
+(* Property level *)
+(* the K list of the implementation as specification records: storage flags and paths follow the specification *)
+AdoptNew(s) == [i \in 1..Len(s) |-> [KP(s[i].c, s[i].lev, s[i].fac) EXCEPT !.ev = s[i].ev]]
+
+RStartFresh ==
+  /\ ~Strict /\ IsEvent("StartFresh")
+  /\ LET impl == KLof(Ev.kl)
+         k0   == AdoptNew(impl)
+     IN /\ StartFreshL(ModeOf(Ev), Ev.nit, k0)
+        /\ Chk("kl.canon", CanonBag(k0, Ev.sym) = CanonBag(InitList(Ev.sym), Ev.sym))
+  /\ Chk("start", Ev.start = 0)
+
+ListingR == IF Has("listing") /\ Len(Ev.listing) = Cardinality(DOMAIN ffiles) /\ SetOf(Ev.listing) = DOMAIN ffiles
+            THEN AsSeq(Ev.listing) ELSE AscSeq(DOMAIN ffiles)
+RStartRestart ==
+  /\ ~Strict /\ IsEvent("StartRestart") /\ StartRestart(ModeOf(Ev), Ev.nit, ListingR, Ev.ri)
+  /\ Chk("kl.restart", Core(kl') = Core(KLof(Ev.kl)))
+  /\ Chk("start", start' = Ev.start)
+  /\ CoefMatch(Ev.coef, coef', "coef")
+
+(* process(): every selected point is evaluated and added to the sum; order, chunking and the way completions are
+   awaited are free.  CollectedOnce / AllCollected are evaluated as invariants. *)
+InProcess == pc \in {"serial", "wait", "collect"}
+RBeginProcess ==
+  /\ ~Strict /\ IsEvent("BeginProcess") /\ BeginProcess
+  /\ (Has("kl") /\ (\A i \in 1..Len(Ev.kl) : Ev.kl[i][7] >= 0)) =>
+        Chk("storage_paths", \A i, j \in 1..Len(Ev.kl) : (i < j /\ Ev.kl[i][7] > 0 /\ Ev.kl[j][7] > 0) => Ev.kl[i][7] # Ev.kl[j][7])
+AnyCollect(i) ==
+  /\ InProcess /\ \E t \in 1..Len(sel) : sel[t] = i
+  /\ LET t == CHOOSE u \in 1..Len(sel) : sel[u] = i
+     IN /\ kl' = SetResult(kl, i)
+        /\ rsum' = [rsum EXCEPT ![i] = @ + kl[i].fac]
+        /\ collected' = [collected EXCEPT ![t] = @ + 1]
+        /\ act' = [name |-> "Collect", k |-> i]
+  /\ UNCHANGED <<disk, pc, mode, coef, resNone, facs, it, start, nit, nkprev, rsNone, returned, sel, done, old, ncalc, ready, toCollect>>
+RCollect == ~Strict /\ (IsEvent("Eval") \/ IsEvent("Collect")) /\ Has("k") /\ AnyCollect(Ev.k)
+RSkip == /\ ~Strict /\ l <= Len(tr) /\ Ev.e \in {"Wait", "EndCollect", "Complete", "Divide"} /\ l' = l + 1
+         /\ UNCHANGED <<vars, tid, tr, ref, refRet, refSet>>
+(* end of process(): points for which no Eval / Collect event was seen count as evaluated once (the hook of the loop
+   body may be absent); a point that was not evaluated shows up in the coefficients at UpdateIntegral *)
+REndProcess ==
+  /\ ~Strict /\ IsEvent("EndProcess")
+  /\ IF pc = "pickle" THEN UNCHANGED vars
+     ELSE /\ InProcess
+          /\ LET miss == {sel[t] : t \in {u \in 1..Len(sel) : collected[u] = 0}}
+             IN /\ kl' = [i \in 1..Len(kl) |-> IF i \in miss THEN [kl[i] EXCEPT !.ev = TRUE, !.st = StoreOf(mode, nit)] ELSE kl[i]]
+                /\ rsum' = [i \in 1..Len(rsum) |-> IF i \in miss THEN rsum[i] + kl[i].fac ELSE rsum[i]]
+                /\ collected' = [t \in 1..Len(collected) |-> IF collected[t] = 0 THEN 1 ELSE collected[t]]
+          /\ pc' = "pickle" /\ act' = [name |-> "EndProcess"]
+          /\ UNCHANGED <<disk, mode, coef, resNone, facs, it, start, nit, nkprev, rsNone, returned, sel, done, old, ncalc, ready, toCollect>>
+RAppendPickle == ~Strict /\ IsEvent("AppendPickle") /\ AppendPickle
+RUpdateIntegral ==
+  /\ ~Strict /\ IsEvent("UpdateIntegral") /\ UpdateIntegral /\ pc' # "error"
+  /\ Has("kl") => Chk("weights", Facs(kl) = [i \in 1..Len(Ev.kl) |-> Ev.kl[i][4]])
+  /\ CoefMatch(Ev.coef, coef', "coef")
+RSaveData ==
+  /\ ~Strict /\ IsEvent("SaveData") /\ SaveDataG(~Ev.saved)
+  /\ Chk("iter", Ev.iter = it + start) /\ Chk("saved", ~(mode.restart /\ it = 0) => Ev.saved)
+  /\ (Ev.saved => (Chk("file", Has("file")) /\ (Has("file") => CoefMatch(Ev.file, coef, "file"))))
+RRefine ==
+  /\ ~Strict /\ IsEvent("Refine")
+  /\ LET impl == KLof(Ev.kl)
+         n0   == Len(kl)
+     IN /\ Must("kl.prefix", /\ Len(impl) >= n0
+                             /\ \A i \in 1..n0 : impl[i].c = kl[i].c /\ impl[i].lev = kl[i].lev /\ impl[i].ev = kl[i].ev)
+        /\ LET ordset == IF Has("ord") /\ Len(Ev.ord) > 0 THEN SetOf(Ev.ord)
+                         ELSE {i \in 1..n0 : kl[i].fac > 0 /\ impl[i].fac = 0}
+               newkl  == [i \in 1..Len(impl) |-> IF i <= n0 THEN [kl[i] EXCEPT !.fac = impl[i].fac]
+                                                  ELSE [KP(impl[i].c, impl[i].lev, impl[i].fac) EXCEPT !.ev = impl[i].ev]]
+           IN /\ Must("ord", ordset # {} /\ ordset \subseteq 1..n0)
+              /\ Chk("kl.canon", CanonBag(newkl, mode.sym) = CanonBag(RefineList(kl, AscSeq(ordset), mode.sym), mode.sym))
+              /\ RefineL(AscSeq(ordset), newkl)
+
+-----------------------------------------------------------------------------
+(* both levels *)
 TReturn == /\ IsEvent("Return") /\ Return /\ CoefMatch(Ev.coef, coef, "coef")
+(* the object returned by run() (projected by the driver after run() came back) *)
+TReturned == /\ IsEvent("Returned") /\ pc = "idle" /\ ~resNone /\ CoefMatch(Ev.coef, coef, "returned") /\ UNCHANGED vars
 (* driver marks: the results saved so far become the reference (uninterrupted run); result files removed *)
-TMarkRef == /\ l <= Len(TraceLog[tid]) /\ Ev.e = "MarkRef" /\ l' = l + 1 /\ pc = "idle"
+TMarkRef == /\ l <= Len(tr) /\ Ev.e = "MarkRef" /\ l' = l + 1 /\ pc = "idle"
             /\ ref' = saved /\ refRet' = returned /\ refSet' = TRUE /\ saved' = <<>> /\ returned' = {}
             /\ act' = [name |-> "MarkRef"]
-            /\ UNCHANGED <<tid, ffiles, pick, pc, mode, kl, coef, resNone, facs, it, start, nit, nkprev, rsum, rsNone, plocal>>
+            /\ UNCHANGED <<tid, tr, ffiles, pick, pc, mode, kl, coef, resNone, facs, it, start, nit, nkprev, rsum, rsNone, plocal>>
 
-TraceInit == Init /\ tid \in 1..NT /\ l = 1 /\ ref = <<>> /\ refRet = {} /\ refSet = FALSE
+TraceInit == Init /\ tid \in 1..Len(TraceLog) /\ tr = TraceLog[tid] /\ l = 1 /\ ref = <<>> /\ refRet = {} /\ refSet = FALSE
 TraceNext == \/ TStartFresh \/ TStartRestart \/ TBeginProcess \/ TEval \/ TEndProcess \/ TComplete \/ TWait
-             \/ TCollect \/ TEndCollect \/ TAppendPickle \/ TUpdateIntegral \/ TSaveData \/ TRefine \/ TReturn
-             \/ TMarkRef
+             \/ TCollect \/ TEndCollect \/ TAppendPickle \/ TUpdateIntegral \/ TSaveData \/ TRefine
+             \/ RStartFresh \/ RStartRestart \/ RBeginProcess \/ RCollect \/ RSkip \/ REndProcess \/ RAppendPickle
+             \/ RUpdateIntegral \/ RSaveData \/ RRefine
+             \/ TReturn \/ TReturned \/ TMarkRef
 TraceSpec == TraceInit /\ [][TraceNext]_<<vars, tvars>>
 
 (* C11 on traces: after MarkRef every saved / returned result must equal the reference of the same global iteration *)
@@ -90,6 +188,6 @@ InvTable == [ TypeOK |-> TypeOK, NoError |-> NoError, WeightOne |-> WeightOne, N
 (* always TRUE; reports *)
 Report ==
   /\ \A n \in DOMAIN InvTable : InvTable[n] \/ PrintT(<<"INVARIANT", tid, l, n>>)
-  /\ (l = Len(TraceLog[tid]) + 1) => PrintT(<<"ACCEPT", tid>>)
-  /\ Diagnose => PrintT(<<"AT", tid, l>>)
+  /\ (l = Len(tr) + 1) => PrintT(<<"ACCEPT", tid>>)
+  /\ PrintT(<<"AT", tid, l>>)
 =============================================================================
